@@ -67,7 +67,7 @@ def e2e_case(args):
                 cmd += rng.choice([['-D%s=%s' % (nm, v)], ['-D', '%s=%s' % (nm, v)]])
                 model[nm] = v
         else:
-            cmd.append('-U' + nm)
+            cmd += rng.choice([['-U' + nm], ['-U', nm]])
             model.pop(nm, None)
     lines = []
     expect = []
